@@ -1,5 +1,5 @@
 """C11 (MAC family: MacTrace.tla)."""
-from . import macfam, core
+from . import macfam, core, mcreplay
 PID = "C11"
 
 
@@ -8,7 +8,16 @@ def run():
     return macfam.run(PID, [f"hist={40 if t else 4}", f"steps={70 if t else 45}", "profile=join"],
         'join procedure deviates from the JoinAccept',
         "seeded random histories with OTAA joins: JoinRequest bytes vs Codec!JoinRequestBytes; JoinAccepts (random DLSettings, RxDelay 0..15, CFList type 0/1/RFU/none, wrong key, bit-flipped, truncated) in RX1, RX2 or never, re-joins from a joined state; session keys are derived by Codec.tla (two AES blocks) and compared with the device's session",
-        macfam.COMMON_ASSUMPTIONS)
+        macfam.COMMON_ASSUMPTIONS,
+        # design level: every sequence of <= 2 join attempts (accepted in RX1/RX2 with every JoinAccept of the alphabet,
+        # or not accepted) with a parameter-changing request and uplinks in between
+        mc=([("MCJoin.tla", "MCJoin.cfg", {"workers": 8}), ("MCJoin.tla", "MCJoinUS.cfg", {"workers": 8})] if t
+            else [("MCJoin.tla", "MCJoinQ.cfg", {"workers": 8}), ("MCJoin.tla", "MCJoinUSQ.cfg", {"workers": 8})]),
+        # specification -> implementation: the behaviours of MCJoin (kept apart by the previous accept and request,
+        # which the design state does not depend on but an implementation might) executed on the real devices
+        extra=[mcreplay.extra(PID, [("MCJoinGen2.cfg", "EU868"), ("MCJoinGenUS2.cfg", "US915")] if t
+                              else [("MCJoinGen1.cfg", "EU868"), ("MCJoinGenUS1.cfg", "US915")],
+                              module="MCJoin.tla", what="MCJoin")])
 
 
 def replay(path):
